@@ -2,6 +2,7 @@
 //! One worker process = one (property, shard); emits JSON lines on stdout.
 
 mod bddhist;
+mod caps;
 mod ctx;
 mod exact;
 mod gen;
@@ -53,6 +54,7 @@ fn main() {
         i += 2;
     }
     ctx::install_panic_hook();
+    caps::init();
     let mut c = Ctx {
         prop: prop.clone(),
         seed,
